@@ -245,6 +245,10 @@ recurseTail:
 	// }
 	// quax = false
 
+	if intp.MaxOps > 0 && intp.NumOps > intp.MaxOps {
+		// the budget was used up by an earlier call
+		return ErrExecutionLimitExceeded
+	}
 	intp.NumOps++
 	intp.verifStep()
 	if intp.MaxOps > 0 && intp.NumOps > intp.MaxOps {
